@@ -59,18 +59,32 @@ def asFieldName (xmlName : String) : String :=
   | [] => "_unnamed"
   | c :: _ => if isDigitA c then "_" ++ s else renameKeywords s
 
+/-- Rust `str::trim` (ASCII white space and the common Unicode spaces), on characters -/
+def isWs (c : Char) : Bool :=
+  c == ' ' || c == '\n' || c == '\t' || c == '\r' || c == '\x0b' || c == '\x0c' || c == '\u0085' || c == '\u00a0'
+    || c == '\u1680' || c == '\u2028' || c == '\u3000' || c == '\u2029' || (c.toNat ≥ 0x2000 && c.toNat ≤ 0x200a)
+    || c == '\u202f' || c == '\u205f'
+
+def trimWs (cs : List Char) : List Char := ((cs.dropWhile isWs).reverse.dropWhile isWs).reverse
+
+/-- `s.trim().parse::<u64>()`: optional `+`, then ASCII digits only, value within u64 -/
+def parseU64? (cs : List Char) : Option Nat :=
+  let t := trimWs cs
+  let ds := match t with
+    | '+' :: r => r
+    | r => r
+  if ds.isEmpty || !ds.all Char.isDigit then none
+  else
+    let v := Nat.ofDigitChars 10 ds 0
+    if v ≤ 18446744073709551615 then some v else none
+
 /-- `may_repeat` -/
 def mayRepeat : Option String → Bool
-  | some "unbounded" => true
-  | some n =>
-    -- `n.trim().parse::<u64>()`: optional `+`, ASCII digits, within u64
-    let t := n.trimAscii.toString
-    let ds := if t.startsWith "+" then (t.drop 1).toString else t
-    if ds.isEmpty || !ds.all Char.isDigit then false
-    else match ds.toNat? with
-      | some v => v > 1 && v ≤ 18446744073709551615
-      | none => false
   | none => false
+  | some n =>
+    n == "unbounded" || (match parseU64? n.toList with
+      | some v => decide (v > 1)
+      | none => false)
 
 def isParticleTag (t : String) : Bool := t == "sequence" || t == "choice" || t == "all"
 
@@ -127,14 +141,7 @@ def mkNs (url : String) (existing : List Ns) : Ns :=
   let abbr := makeAbbreviatedNamespace url existing
   { uri := url, abbreviation := abbr, rustModName := "mod_" ++ abbr }
 
-/-- Rust `str::trim` (ASCII white space and the common Unicode spaces) -/
-def isWs (c : Char) : Bool :=
-  c == ' ' || c == '\n' || c == '\t' || c == '\r' || c == '\x0b' || c == '\x0c' || c == '\u0085' || c == ' '
-    || c == ' ' || c == ' ' || c == '　' || c == ' ' || (c.toNat ≥ 0x2000 && c.toNat ≤ 0x200a)
-    || c == ' ' || c == ' '
-
-def rustTrim (s : String) : String :=
-  String.ofList ((s.toList.dropWhile isWs).reverse.dropWhile isWs).reverse
+def rustTrim (s : String) : String := String.ofList (trimWs s.toList)
 
 /-- `parse_comment` -/
 def parseComment (node : XNode) : Option String :=
